@@ -27,6 +27,8 @@ DIALECTS = [
     {"quoting": csv.QUOTE_ALL},
     {"escapechar": "\\", "doublequote": False},
     {"lineterminator": "\n"},
+    {"lineterminator": "\r"},
+    {"skipinitialspace": True, "quoting": csv.QUOTE_ALL},
     {"delimiter": "\t", "quoting": csv.QUOTE_NONNUMERIC},
 ]
 
